@@ -92,7 +92,7 @@ pub fn run_items(prop: &str, items: Vec<BItem>, rep: &Report, opts: BOpts) -> Re
             Some(BStatus::Pass { checks }) => {
                 passed_checks += checks;
                 rep.count("cases_passed", 1);
-                rep.outputs.add(1);
+                rep.outputs.add_of(&("pass", checks)); // distinct assertion counts = distinct shapes of passing cases
                 if rep.want_sample() && it.nontrivial {
                     rep.sample(json!({"space": it.space, "choices": it.choices, "input": it.inputs, "assertions_passed": checks, "tags": it.tags}));
                 }
